@@ -241,7 +241,7 @@ func c09ReaderNS(c *core.Ctx) {
 			key := name + " -> " + cc.Method.Name()
 			arg0, arg1 := cc.Args[0], cc.Args[1]
 			l0 := sliceLeaves(c.Env, arg0, 2)
-			l1 := sliceLeaves(c.Env, arg1, 2)
+			_ = arg1
 			tainted := taintLeaves(l0)
 			nsField := false
 			for l := range l0 {
@@ -254,15 +254,18 @@ func c09ReaderNS(c *core.Ctx) {
 			case len(tainted) > 0:
 				c.Violated(key, at(c, s.Instr), "default namespace derives from the referenced value ("+strings.Join(tainted, ", ")+"): the cross-namespace check is bypassed")
 			case emptyConst:
-				// operator-level: the name must not come from an annotation of a namespaced object.
-				// accepted sources: options.*, the TCP ConfigMap, or a name built as ownNamespace + "/" + name
-				okOp := leavesContain(l1, ".options.") || leavesContain(l1, "param:") && !leavesContain(l1, ".Value") || ownNamespaceConcat(arg1)
+				// no cross-namespace check happens: the name must be operator-level input (options, global
+				// ConfigMap, TCP ConfigMap) or be qualified with the reader's own namespace
 				if paramTypeContains(fn, "annotations.globalData") {
-					// the mapper of *globalData is the global ConfigMap: operator-level input
 					c.Held(key, at(c, s.Instr), "operator-level read: the value comes from the global ConfigMap (function takes *globalData)")
 					continue
 				}
-				c.Check(okOp && len(taintLeaves(l1)) == 0 || ownNamespaceConcat(arg1), key, at(c, s.Instr), "empty default namespace with an operator-level or own-namespace qualified name", "empty default namespace (no cross-namespace check) with a name that may come from a namespaced object's annotation: "+leavesList(l1))
+				if ownNamespaceConcat(arg1) {
+					c.Held(key, at(c, s.Instr), "name is qualified with the reader's own namespace: "+core.Key(arg1))
+					continue
+				}
+				ok, why := operatorLevelName(c, fn, arg1, 2)
+				c.Check(ok, key, at(c, s.Instr), "empty default namespace with an operator-level name: "+why, "the read passes an empty default namespace (no cross-namespace check) with a name that comes from a namespaced object: "+why)
 			case nsField:
 				c.Held(key, at(c, s.Instr), "default namespace is the namespace of the object carrying the reference: "+core.Key(arg0))
 			default:
@@ -670,4 +673,65 @@ func paramIsOwnNamespace(c *core.Ctx, fn *ssa.Function, p *ssa.Parameter, depth 
 		return false, "no static caller found"
 	}
 	return true, strings.Join(descs, "; ")
+}
+
+// operatorLevelName: every source of v is a constant, a field of the converter options, the TCP
+// ConfigMap data, or a parameter that every caller fills that way.
+func operatorLevelName(c *core.Ctx, fn *ssa.Function, v ssa.Value, depth int) (bool, string) {
+	l := sliceLeaves(c.Env, v, 0)
+	var why []string
+	for k := range l {
+		switch {
+		case strings.HasPrefix(k, "const:"), strings.HasPrefix(k, "call:"), strings.HasPrefix(k, "extract:"), strings.HasPrefix(k, "alloc:"), strings.HasPrefix(k, "range:"), strings.HasPrefix(k, "other:"):
+		case strings.HasPrefix(k, "load:"):
+		case strings.HasPrefix(k, "freevar:"):
+		case strings.HasPrefix(k, "field:"):
+			f := strings.TrimPrefix(k, "field:")
+			if strings.Contains(f, ".options.") || strings.HasSuffix(f, ".options") || strings.Contains(f, "TCPConfigMapData") || strings.HasSuffix(f, ".changed") || strings.HasSuffix(f, ".cache") || strings.HasSuffix(f, ".logger") {
+				continue
+			}
+			return false, "derives from " + f
+		case strings.HasPrefix(k, "param:"):
+			pn := strings.TrimPrefix(k, "param:")
+			var p *ssa.Parameter
+			for _, q := range fn.Params {
+				if q.Name() == pn {
+					p = q
+				}
+			}
+			if p == nil || fn.Signature.Recv() != nil && p == fn.Params[0] {
+				continue // the receiver
+			}
+			if depth == 0 {
+				return false, "parameter " + pn + " (call chain too deep)"
+			}
+			idx := 0
+			for i, q := range fn.Params {
+				if q == p {
+					idx = i
+				}
+			}
+			n := 0
+			for _, caller := range c.SrcFuncs() {
+				for _, s := range core.Calls(caller, false) {
+					if s.Common().StaticCallee() != fn {
+						continue
+					}
+					n++
+					ok, w := operatorLevelName(c, caller, s.Common().Args[idx], depth-1)
+					if !ok {
+						return false, "caller " + core.FuncName(caller) + " passes a name that " + w
+					}
+				}
+			}
+			if n == 0 {
+				return false, "parameter " + pn + " has no static caller"
+			}
+			why = append(why, "parameter "+pn+" is operator-level at every caller")
+		}
+	}
+	if len(why) == 0 {
+		return true, "constants / options / ConfigMap data only"
+	}
+	return true, strings.Join(why, "; ")
 }
